@@ -1,5 +1,6 @@
 """C14 - generic messaging delivers the request verbatim and returns the answer (router journal of the
 reference target vs what was requested; returned Tag vs the reply the target produced)."""
+from vlib.bench import ScenarioDead
 from vlib import common, devices, refpath
 from vlib import refcodec as rc
 from vlib import refepath as rp
@@ -70,253 +71,259 @@ def run(ctx):
     ]
 
     nscen = 400 if quick else 6000
-    for sc in range(nscen):
-        if not ctx.mine(sc):
-            continue
-        b = Bench(rng)
-        # ---- chassis: a route of 0-3 hops to the device the driver talks to, plus sibling slots -------------
-        hops = refpath.gen_route(rng, max_hops=3)
-        if rng.random() < 0.5:
-            hops = [(1, rng.choice([0, 1, 3, 16]))]
-        log = b.log
-        dev = rt.Device(devices.random_identity(rng, vend_ids, type_ids), rng, log)
-        front = dev if not hops else rt.Device(devices.random_identity(rng, vend_ids, type_ids), rng, log)
-        routes = {tuple(hops): dev}
-        siblings = {}
-        for slot in rng.sample(range(0, 18), 4):
-            r = tuple(hops[:-1]) + ((1, slot),) if hops else ((1, slot),)
-            if r not in routes:
-                siblings[slot] = rt.Device(devices.random_identity(rng, vend_ids, type_ids), rng, log)
-                routes[r] = siblings[slot]
-        other_route = tuple(refpath.gen_route(rng, max_hops=2)) or ((1, 9),)
-        if other_route not in routes:
-            routes[other_route] = rt.Device(devices.random_identity(rng, vend_ids, type_ids), rng, log)
-        pol = rt.Policy()
-        pol.accept_large_fo = rng.random() < 0.7
-        t = rt.RefTarget(rng, front=front, routes=routes, policy=pol, log=log)
-        host = refpath.gen_host(rng)
-        port = rng.choice([None, None, 44818, 2222, rng.randint(1, 65534)])
-        b.set_target(t, host=host, port=port or 44818)
-        path = refpath.spell(rng, host, port, hops, False)
+    for sc in range(nscen):  # WRAPPED
         try:
-            drv = p.CIPDriver(path)
-        except Exception as e:  # noqa
-            res.ev()
-            res.violation("driver-construction", f"CIPDriver({path!r}) raised {e!r:.160} for a path in the documented grammar", {"path": path})
-            b.close()
-            continue
-        st, out = b.call("open", drv.open)
-        if st != "ok" or not out:
-            res.ev()
-            res.violation("open-failed", f"CIPDriver({path!r}).open() -> {out!r:.160} against a conforming target", {"path": path})
-            b.close()
-            continue
-
-        state = {}
-
-        def responder(rq):
-            return state["reply"]
-
-        for d_ in list(routes.values()) + [front]:
-            d_.responder = responder
-
-        def module_info_round():
-            # ---- get_module_info(slot): identity of the module in that slot of the driver's chassis -------------------
-            for slot, sdev in sorted(siblings.items()):
-                for d_ in routes.values():
-                    d_.responder = None
-                st, info = b.call("get_module_info", drv.get_module_info, slot)
+            if not ctx.mine(sc):
+                continue
+            b = Bench(rng)
+            # ---- chassis: a route of 0-3 hops to the device the driver talks to, plus sibling slots -------------
+            hops = refpath.gen_route(rng, max_hops=3)
+            if rng.random() < 0.5:
+                hops = [(1, rng.choice([0, 1, 3, 16]))]
+            log = b.log
+            dev = rt.Device(devices.random_identity(rng, vend_ids, type_ids), rng, log)
+            front = dev if not hops else rt.Device(devices.random_identity(rng, vend_ids, type_ids), rng, log)
+            routes = {tuple(hops): dev}
+            siblings = {}
+            for slot in rng.sample(range(0, 18), 4):
+                r = tuple(hops[:-1]) + ((1, slot),) if hops else ((1, slot),)
+                if r not in routes:
+                    siblings[slot] = rt.Device(devices.random_identity(rng, vend_ids, type_ids), rng, log)
+                    routes[r] = siblings[slot]
+            other_route = tuple(refpath.gen_route(rng, max_hops=2)) or ((1, 9),)
+            if other_route not in routes:
+                routes[other_route] = rt.Device(devices.random_identity(rng, vend_ids, type_ids), rng, log)
+            pol = rt.Policy()
+            pol.accept_large_fo = rng.random() < 0.7
+            t = rt.RefTarget(rng, front=front, routes=routes, policy=pol, log=log)
+            host = refpath.gen_host(rng)
+            port = rng.choice([None, None, 44818, 2222, rng.randint(1, 65534)])
+            b.set_target(t, host=host, port=port or 44818)
+            path = refpath.spell(rng, host, port, hops, False)
+            try:
+                drv = p.CIPDriver(path)
+            except Exception as e:  # noqa
                 res.ev()
-                res.seen("get_module_info", len(hops))
-                idn = sdev.identity
-                if st != "ok" or not isinstance(info, dict) or info.get("product_name") != idn.name or info.get("serial") != f"{idn.serial:08x}" or info.get("product_code") != idn.product_code:
-                    res.violation("get_module_info", f"get_module_info({slot}) over path {path!r} -> {info!r:.200}; slot holds {idn.name!r} serial {idn.serial:08x}", None)
-                for d_ in routes.values():
-                    d_.responder = responder
+                res.violation("driver-construction", f"CIPDriver({path!r}) raised {e!r:.160} for a path in the documented grammar", {"path": path})
+                b.close()
+                continue
+            st, out = b.call("open", drv.open)
+            if st != "ok" or not out:
+                res.ev()
+                res.violation("open-failed", f"CIPDriver({path!r}).open() -> {out!r:.160} against a conforming target", {"path": path})
+                b.close()
+                continue
 
-        ncalls = 40 if quick else 60
-        for k in range(ncalls):
-            if k in (ncalls // 3, ncalls - 3):
-                module_info_round()
-            service = rng.randrange(0x80)
-            cls_v = pick_value(rng)
-            while cls_v in (1, 6):
+            state = {}
+
+            def responder(rq):
+                return state["reply"]
+
+            for d_ in list(routes.values()) + [front]:
+                d_.responder = responder
+
+            def module_info_round():
+                # ---- get_module_info(slot): identity of the module in that slot of the driver's chassis -------------------
+                for slot, sdev in sorted(siblings.items()):
+                    for d_ in routes.values():
+                        d_.responder = None
+                    st, info = b.call("get_module_info", drv.get_module_info, slot)
+                    res.ev()
+                    res.seen("get_module_info", len(hops))
+                    idn = sdev.identity
+                    if st != "ok" or not isinstance(info, dict) or info.get("product_name") != idn.name or info.get("serial") != f"{idn.serial:08x}" or info.get("product_code") != idn.product_code:
+                        res.violation("get_module_info", f"get_module_info({slot}) over path {path!r} -> {info!r:.200}; slot holds {idn.name!r} serial {idn.serial:08x}", None)
+                    for d_ in routes.values():
+                        d_.responder = responder
+
+            ncalls = 40 if quick else 60
+            for k in range(ncalls):
+                if k in (ncalls // 3, ncalls - 3):
+                    module_info_round()
+                service = rng.randrange(0x80)
                 cls_v = pick_value(rng)
-            inst_v, attr_v = pick_value(rng), pick_value(rng)
-            use_attr = rng.random() < 0.5
-            n = k if k <= 64 and sc % 3 == 0 else rng.choice([0, 1, 2, 3, 7, 8, 63, 64, 65, rng.randrange(0, 400)])
-            req_data = bytes(rng.randrange(256) for _ in range(n))
-            transport = rng.choice(["connected", "ucmm", "unconnected_send"])
-            # reply chosen by the target
-            dt, desc = rng.choice(reply_types)
-            if rng.random() < 0.2:
-                status = rng.choice([1, 2, 4, 5, 8, 0x0E, 0x14, 0x1E, 0xFF, rng.randrange(1, 256)])
-                ext = rng.choice([(), (), (rng.randrange(65536),), (0x2105,)])
-                rdata = bytes(rng.randrange(256) for _ in range(rng.choice([0, 0, 3])))
-            else:
-                status, ext = 0, ()
-                if desc is None:
-                    rdata = bytes(rng.randrange(256) for _ in range(rng.choice([0, 1, 2, 5, 33, 200])))
+                while cls_v in (1, 6):
+                    cls_v = pick_value(rng)
+                inst_v, attr_v = pick_value(rng), pick_value(rng)
+                use_attr = rng.random() < 0.5
+                n = k if k <= 64 and sc % 3 == 0 else rng.choice([0, 1, 2, 3, 7, 8, 63, 64, 65, rng.randrange(0, 400)])
+                req_data = bytes(rng.randrange(256) for _ in range(n))
+                transport = rng.choice(["connected", "ucmm", "unconnected_send"])
+                # reply chosen by the target
+                dt, desc = rng.choice(reply_types)
+                if rng.random() < 0.2:
+                    status = rng.choice([1, 2, 4, 5, 8, 0x0E, 0x14, 0x1E, 0xFF, rng.randrange(1, 256)])
+                    ext = rng.choice([(), (), (rng.randrange(65536),), (0x2105,)])
+                    rdata = bytes(rng.randrange(256) for _ in range(rng.choice([0, 0, 3])))
                 else:
-                    from vlib import typegrammar as tg
-                    val = tg.gen_value(desc, rng, small=True)
-                    rdata = rc.encode(desc, val)
-                    if desc[0] != "uarray" and rng.random() < 0.4:
-                        rdata += bytes(rng.randrange(256) for _ in range(rng.choice([1, 4, 9])))  # trailing reply bytes, as in the docs' capture
-            state["reply"] = (status, ext, rdata)
-            kwargs = dict(service=service if rng.random() < 0.5 else bytes([service]), class_code=arg_form(rng, cls_v),
-                          instance=arg_form(rng, inst_v), request_data=req_data, data_type=dt, name=f"msg{k}")
-            if use_attr:
-                kwargs["attribute"] = arg_form(rng, attr_v)
-            exp_route, exp_dev, exp_data = tuple(hops), dev, req_data
-            rp_form = "n/a"
-            if transport == "connected":
-                kwargs["connected"] = True
-            else:
-                kwargs["connected"] = False
-                kwargs["unconnected_send"] = transport == "unconnected_send"
-                rp_form = rng.choice(["true", "false", "str", "list", "bytes", "default"])
-                if transport == "unconnected_send" and rp_form == "false":
-                    rp_form = "true"
-                tgt_route = tuple(hops) if rng.random() < 0.6 else rng.choice(list(routes))
-                if rp_form == "true":
-                    kwargs["route_path"] = True
-                    tgt_route = tuple(hops)
-                elif rp_form == "default":
-                    tgt_route = tuple(hops)
-                elif rp_form == "false":
-                    kwargs["route_path"] = False
-                    tgt_route = None
-                elif rp_form == "str":
-                    if not tgt_route:
-                        tgt_route = tuple(hops)
-                        kwargs["route_path"] = True
+                    status, ext = 0, ()
+                    if desc is None:
+                        rdata = bytes(rng.randrange(256) for _ in range(rng.choice([0, 1, 2, 5, 33, 200])))
+                    else:
+                        from vlib import typegrammar as tg
+                        val = tg.gen_value(desc, rng, small=True)
+                        rdata = rc.encode(desc, val)
+                        if desc[0] != "uarray" and rng.random() < 0.4:
+                            rdata += bytes(rng.randrange(256) for _ in range(rng.choice([1, 4, 9])))  # trailing reply bytes, as in the docs' capture
+                state["reply"] = (status, ext, rdata)
+                kwargs = dict(service=service if rng.random() < 0.5 else bytes([service]), class_code=arg_form(rng, cls_v),
+                              instance=arg_form(rng, inst_v), request_data=req_data, data_type=dt, name=f"msg{k}")
+                if use_attr:
+                    kwargs["attribute"] = arg_form(rng, attr_v)
+                exp_route, exp_dev, exp_data = tuple(hops), dev, req_data
+                rp_form = "n/a"
+                if transport == "connected":
+                    kwargs["connected"] = True
+                else:
+                    kwargs["connected"] = False
+                    kwargs["unconnected_send"] = transport == "unconnected_send"
+                    rp_form = rng.choice(["true", "false", "str", "list", "bytes", "default"])
+                    if transport == "unconnected_send" and rp_form == "false":
                         rp_form = "true"
+                    tgt_route = tuple(hops) if rng.random() < 0.6 else rng.choice(list(routes))
+                    if rp_form == "true":
+                        kwargs["route_path"] = True
+                        tgt_route = tuple(hops)
+                    elif rp_form == "default":
+                        tgt_route = tuple(hops)
+                    elif rp_form == "false":
+                        kwargs["route_path"] = False
+                        tgt_route = None
+                    elif rp_form == "str":
+                        if not tgt_route:
+                            tgt_route = tuple(hops)
+                            kwargs["route_path"] = True
+                            rp_form = "true"
+                        else:
+                            sp = refpath.spell(rng, "h", None, list(tgt_route), False, force_long=True)[2:]
+                            kwargs["route_path"] = sp.replace(",", rng.choice("/\\"))  # commas are documented for driver paths only
+                    elif rp_form == "list":
+                        if not tgt_route:
+                            rp_form, kwargs["route_path"], tgt_route = "true", True, tuple(hops)
+                        else:
+                            kwargs["route_path"] = [p.PortSegment(pp, ll) for pp, ll in tgt_route]
+                    elif rp_form == "bytes":
+                        kwargs["route_path"] = refpath.route_bytes(list(tgt_route), pad_after_size=True)
+                    if transport == "unconnected_send":
+                        exp_route, exp_dev = tgt_route, routes[tgt_route]
                     else:
-                        sp = refpath.spell(rng, "h", None, list(tgt_route), False, force_long=True)[2:]
-                        kwargs["route_path"] = sp.replace(",", rng.choice("/\\"))  # commas are documented for driver paths only
-                elif rp_form == "list":
-                    if not tgt_route:
-                        rp_form, kwargs["route_path"], tgt_route = "true", True, tuple(hops)
+                        exp_route, exp_dev = (), front
+                        if tgt_route is not None:
+                            exp_data = req_data + refpath.route_bytes(list(tgt_route), pad_after_size=True)
+                before = len(exp_dev.journal)
+                all_before = sum(len(d_.journal) for d_ in set(routes.values()) | {front})
+                st, tag = b.call("generic_message", drv.generic_message, **kwargs)
+                res.ev()
+                res.seen(transport, rp_form, width(cls_v), width(inst_v), width(attr_v) if use_attr else 0, n % 2, status == 0, dt is None, len(hops))
+                desc_txt = f"generic_message(service={service:#x}, class={cls_v:#x}, instance={inst_v:#x}, attribute={(attr_v if use_attr else None)!r}, {n}B data, {transport}, route_path={rp_form}, path={path!r})"
+                if st != "ok":
+                    res.violation(f"raises:{transport}", f"{desc_txt} raised {tag!r:.160}", {"kwargs": {k_: v for k_, v in kwargs.items() if k_ != "data_type"}})
+                    continue
+                new = exp_dev.journal[before:]
+                all_after = sum(len(d_.journal) for d_ in set(routes.values()) | {front})
+                if len(new) != 1 or all_after - all_before != 1:
+                    res.violation(f"delivery-count:{transport}", f"{desc_txt}: the intended device received {len(new)} requests, all devices {all_after - all_before} (exactly one expected)",
+                                  {"kwargs": {k_: v for k_, v in kwargs.items() if k_ != "data_type"}, "log": [v[:3] for v in log.violations[-3:]]})
+                    log.violations.clear()
+                    continue
+                j = new[0]
+                want_segs = [("logical", "class", cls_v), ("logical", "instance", inst_v)] + ([("logical", "attribute", attr_v)] if use_attr else [])
+                if j["transport"] != transport or j["service"] != service or j["segs"] != want_segs or j["data"] != exp_data or tuple(j["route"]) != tuple(exp_route):
+                    res.violation(f"request-altered:{transport}:{rp_form}",
+                                  f"{desc_txt}: target saw transport={j['transport']} service={j['service']:#x} path={j['segs']!r} data={j['data'].hex()[:80]} route={j['route']!r}; "
+                                  f"expected {transport} {service:#x} {want_segs!r} {exp_data.hex()[:80]} {exp_route!r}",
+                                  {"seen": j, "expected": {"segs": want_segs, "data": exp_data, "route": exp_route}})
+                # ---- the answer ---------------------------------------------------------------------------------
+                if status == 0:
+                    if desc is None:
+                        want_val = rdata
+                        okv = isinstance(tag.value, (bytes, bytearray)) and bytes(tag.value) == rdata
                     else:
-                        kwargs["route_path"] = [p.PortSegment(pp, ll) for pp, ll in tgt_route]
-                elif rp_form == "bytes":
-                    kwargs["route_path"] = refpath.route_bytes(list(tgt_route), pad_after_size=True)
-                if transport == "unconnected_send":
-                    exp_route, exp_dev = tgt_route, routes[tgt_route]
+                        want_val, _ = rc.decode(desc, rdata)
+                        okv = rc.values_equal(desc, want_val, tag.value)
+                    if not tag or tag.error is not None or not okv:
+                        res.violation(f"reply-altered:{'raw' if desc is None else desc[0]}",
+                                      f"{desc_txt}: target replied status 0 data {rdata.hex()[:80]}; Tag = {tag!r:.200}, expected value {want_val!r:.120}",
+                                      {"reply": rdata})
                 else:
-                    exp_route, exp_dev = (), front
-                    if tgt_route is not None:
-                        exp_data = req_data + refpath.route_bytes(list(tgt_route), pad_after_size=True)
-            before = len(exp_dev.journal)
-            all_before = sum(len(d_.journal) for d_ in set(routes.values()) | {front})
-            st, tag = b.call("generic_message", drv.generic_message, **kwargs)
-            res.ev()
-            res.seen(transport, rp_form, width(cls_v), width(inst_v), width(attr_v) if use_attr else 0, n % 2, status == 0, dt is None, len(hops))
-            desc_txt = f"generic_message(service={service:#x}, class={cls_v:#x}, instance={inst_v:#x}, attribute={(attr_v if use_attr else None)!r}, {n}B data, {transport}, route_path={rp_form}, path={path!r})"
-            if st != "ok":
-                res.violation(f"raises:{transport}", f"{desc_txt} raised {tag!r:.160}", {"kwargs": {k_: v for k_, v in kwargs.items() if k_ != "data_type"}})
-                continue
-            new = exp_dev.journal[before:]
-            all_after = sum(len(d_.journal) for d_ in set(routes.values()) | {front})
-            if len(new) != 1 or all_after - all_before != 1:
-                res.violation(f"delivery-count:{transport}", f"{desc_txt}: the intended device received {len(new)} requests, all devices {all_after - all_before} (exactly one expected)",
-                              {"kwargs": {k_: v for k_, v in kwargs.items() if k_ != "data_type"}, "log": [v[:3] for v in log.violations[-3:]]})
-                log.violations.clear()
-                continue
-            j = new[0]
-            want_segs = [("logical", "class", cls_v), ("logical", "instance", inst_v)] + ([("logical", "attribute", attr_v)] if use_attr else [])
-            if j["transport"] != transport or j["service"] != service or j["segs"] != want_segs or j["data"] != exp_data or tuple(j["route"]) != tuple(exp_route):
-                res.violation(f"request-altered:{transport}:{rp_form}",
-                              f"{desc_txt}: target saw transport={j['transport']} service={j['service']:#x} path={j['segs']!r} data={j['data'].hex()[:80]} route={j['route']!r}; "
-                              f"expected {transport} {service:#x} {want_segs!r} {exp_data.hex()[:80]} {exp_route!r}",
-                              {"seen": j, "expected": {"segs": want_segs, "data": exp_data, "route": exp_route}})
-            # ---- the answer ---------------------------------------------------------------------------------
-            if status == 0:
-                if desc is None:
-                    want_val = rdata
-                    okv = isinstance(tag.value, (bytes, bytearray)) and bytes(tag.value) == rdata
-                else:
-                    want_val, _ = rc.decode(desc, rdata)
-                    okv = rc.values_equal(desc, want_val, tag.value)
-                if not tag or tag.error is not None or not okv:
-                    res.violation(f"reply-altered:{'raw' if desc is None else desc[0]}",
-                                  f"{desc_txt}: target replied status 0 data {rdata.hex()[:80]}; Tag = {tag!r:.200}, expected value {want_val!r:.120}",
-                                  {"reply": rdata})
-            else:
-                if tag or not tag.error:
-                    res.violation("refusal-not-falsy", f"{desc_txt}: target refused with status {status:#x} ext {ext!r}; Tag = {tag!r:.200}", None)
-            if tag.tag != f"msg{k}":
-                res.violation("tag-name", f"generic_message(name='msg{k}') returned Tag.tag = {tag.tag!r}", None)
-            if sc < 2 and k < 2:
-                res.sample({"call": desc_txt, "target_saw": {"transport": j["transport"], "service": j["service"], "path": j["segs"], "data": j["data"], "route": j["route"]}, "tag": repr(tag)[:200]})
+                    if tag or not tag.error:
+                        res.violation("refusal-not-falsy", f"{desc_txt}: target refused with status {status:#x} ext {ext!r}; Tag = {tag!r:.200}", None)
+                if tag.tag != f"msg{k}":
+                    res.violation("tag-name", f"generic_message(name='msg{k}') returned Tag.tag = {tag.tag!r}", None)
+                if sc < 2 and k < 2:
+                    res.sample({"call": desc_txt, "target_saw": {"transport": j["transport"], "service": j["service"], "path": j["segs"], "data": j["data"], "route": j["route"]}, "tag": repr(tag)[:200]})
 
-        b.call("close", drv.close)
-        log.drain_into(res, {"C14"})
-        log.violations.clear()
-        b.close()
+            b.call("close", drv.close)
+            log.drain_into(res, {"C14"})
+            log.violations.clear()
+            b.close()
+        except ScenarioDead:
+            continue
 
     # ---- LogixDriver helpers against a controller shell ---------------------------------------------------------
     nctl = 240 if quick else 4000
-    for sc in range(nctl):
-        if not ctx.mine(sc + 1):
-            continue
-        b = Bench(rng)
-        micro = rng.random() < 0.3
-        ident = devices.random_identity(rng, vend_ids, type_ids, micro800=micro)
-        pname = "".join(chr(rng.choice([rng.randrange(0x20, 0x7F), rng.randrange(0xA0, 0x100)])) for _ in range(rng.choice([0, 1, 5, 12, 40])))
-        ctl = devices.ControllerDevice(ident, rng, b.log, program_name=pname, clock_us=rng.randrange(0, 253402300799999999))
-        slot = rng.choice([0, 0, 1, 4])
-        routes = {((1, slot),): ctl}
-        t = rt.RefTarget(rng, front=ctl, routes=routes, log=b.log)
-        b.set_target(t)
-        path = b.host if slot == 0 and rng.random() < 0.5 else f"{b.host}/{slot}"
-        drv = p.LogixDriver(path, init_tags=False)
-        st, out = b.call("open", drv.open)
-        res.ev()
-        if st != "ok" or not out:
-            res.violation("logix-open-failed", f"LogixDriver({path!r}, init_tags=False).open() -> {out!r:.200} (micro800={micro})", {"identity": ident.name})
-            b.close()
-            continue
-        res.seen("helpers", micro, slot)
-        if not micro:
-            if drv.info.get("name") != pname:
-                res.violation("get_plc_name", f"info['name'] = {drv.info.get('name')!r}, controller program name {pname!r}", None)
-            st, nm = b.call("get_plc_name", drv.get_plc_name)
-            res.ev()
-            if st != "ok" or nm != pname:
-                res.violation("get_plc_name", f"get_plc_name() -> {nm!r}, controller program name {pname!r}", None)
-        j = [e for e in ctl.journal if e["segs"][:1] == [("logical", "class", 1)]]
-        want_tr = "ucmm" if micro else "unconnected_send"
-        if not j or j[-1]["transport"] != want_tr or j[-1]["service"] != 1:
-            res.violation("get_plc_info-transport", f"get_plc_info reached the identity object via {j[-1]['transport'] if j else None}, expected {want_tr} (micro800={micro})", None)
-        for rep in range(4):
-            us = rng.choice([0, 1, 999_999, 1_000_000, 1_600_000_000_000_000, 253402300799999999, rng.randrange(0, 253402300799999999)])
-            st, tg_ = b.call("set_plc_time", drv.set_plc_time, us)
-            res.ev()
-            if st != "ok" or not tg_:
-                res.violation("set_plc_time", f"set_plc_time({us}) -> {tg_!r:.200}", None)
+    for sc in range(nctl):  # WRAPPED
+        try:
+            if not ctx.mine(sc + 1):
                 continue
-            if ctl.clock_us != us:
-                res.violation("set_plc_time-value", f"set_plc_time({us}) left the controller clock at {ctl.clock_us}", None)
+            b = Bench(rng)
+            micro = rng.random() < 0.3
+            ident = devices.random_identity(rng, vend_ids, type_ids, micro800=micro)
+            pname = "".join(chr(rng.choice([rng.randrange(0x20, 0x7F), rng.randrange(0xA0, 0x100)])) for _ in range(rng.choice([0, 1, 5, 12, 40])))
+            ctl = devices.ControllerDevice(ident, rng, b.log, program_name=pname, clock_us=rng.randrange(0, 253402300799999999))
+            slot = rng.choice([0, 0, 1, 4])
+            routes = {((1, slot),): ctl}
+            t = rt.RefTarget(rng, front=ctl, routes=routes, log=b.log)
+            b.set_target(t)
+            path = b.host if slot == 0 and rng.random() < 0.5 else f"{b.host}/{slot}"
+            drv = p.LogixDriver(path, init_tags=False)
+            st, out = b.call("open", drv.open)
+            res.ev()
+            if st != "ok" or not out:
+                res.violation("logix-open-failed", f"LogixDriver({path!r}, init_tags=False).open() -> {out!r:.200} (micro800={micro})", {"identity": ident.name})
+                b.close()
+                continue
+            res.seen("helpers", micro, slot)
+            if not micro:
+                if drv.info.get("name") != pname:
+                    res.violation("get_plc_name", f"info['name'] = {drv.info.get('name')!r}, controller program name {pname!r}", None)
+                st, nm = b.call("get_plc_name", drv.get_plc_name)
+                res.ev()
+                if st != "ok" or nm != pname:
+                    res.violation("get_plc_name", f"get_plc_name() -> {nm!r}, controller program name {pname!r}", None)
+            j = [e for e in ctl.journal if e["segs"][:1] == [("logical", "class", 1)]]
+            want_tr = "ucmm" if micro else "unconnected_send"
+            if not j or j[-1]["transport"] != want_tr or j[-1]["service"] != 1:
+                res.violation("get_plc_info-transport", f"get_plc_info reached the identity object via {j[-1]['transport'] if j else None}, expected {want_tr} (micro800={micro})", None)
+            for rep in range(4):
+                us = rng.choice([0, 1, 999_999, 1_000_000, 1_600_000_000_000_000, 253402300799999999, rng.randrange(0, 253402300799999999)])
+                st, tg_ = b.call("set_plc_time", drv.set_plc_time, us)
+                res.ev()
+                if st != "ok" or not tg_:
+                    res.violation("set_plc_time", f"set_plc_time({us}) -> {tg_!r:.200}", None)
+                    continue
+                if ctl.clock_us != us:
+                    res.violation("set_plc_time-value", f"set_plc_time({us}) left the controller clock at {ctl.clock_us}", None)
+                st, tg_ = b.call("get_plc_time", drv.get_plc_time)
+                res.ev()
+                res.seen("time", us.bit_length() // 8)
+                if st != "ok" or not tg_ or not isinstance(tg_.value, dict) or tg_.value.get("microseconds") != us:
+                    res.violation("get_plc_time", f"after set_plc_time({us}), get_plc_time() -> {tg_!r:.240}", None)
+                else:
+                    import datetime
+                    want_dt = datetime.datetime(1970, 1, 1) + datetime.timedelta(microseconds=us)
+                    if tg_.value.get("datetime") != want_dt:
+                        res.violation("get_plc_time-datetime", f"get_plc_time() datetime {tg_.value.get('datetime')!r} != {want_dt!r}", None)
+            # refusal: wall clock rejects -> falsy Tag with status text
+            ctl.force_status = lambda rq: (0x0F, (), b"") if rq.logical("class") == 0x8B else None
             st, tg_ = b.call("get_plc_time", drv.get_plc_time)
             res.ev()
-            res.seen("time", us.bit_length() // 8)
-            if st != "ok" or not tg_ or not isinstance(tg_.value, dict) or tg_.value.get("microseconds") != us:
-                res.violation("get_plc_time", f"after set_plc_time({us}), get_plc_time() -> {tg_!r:.240}", None)
-            else:
-                import datetime
-                want_dt = datetime.datetime(1970, 1, 1) + datetime.timedelta(microseconds=us)
-                if tg_.value.get("datetime") != want_dt:
-                    res.violation("get_plc_time-datetime", f"get_plc_time() datetime {tg_.value.get('datetime')!r} != {want_dt!r}", None)
-        # refusal: wall clock rejects -> falsy Tag with status text
-        ctl.force_status = lambda rq: (0x0F, (), b"") if rq.logical("class") == 0x8B else None
-        st, tg_ = b.call("get_plc_time", drv.get_plc_time)
-        res.ev()
-        if st != "ok" or tg_ or not tg_.error:
-            res.violation("helper-refusal", f"get_plc_time() with the clock object refusing (0x0F) -> {tg_!r:.200}", None)
-        ctl.force_status = None
-        b.call("close", drv.close)
-        b.log.drain_into(res, {"C14"})
-        b.close()
+            if st != "ok" or tg_ or not tg_.error:
+                res.violation("helper-refusal", f"get_plc_time() with the clock object refusing (0x0F) -> {tg_!r:.200}", None)
+            ctl.force_status = None
+            b.call("close", drv.close)
+            b.log.drain_into(res, {"C14"})
+            b.close()
+        except ScenarioDead:
+            continue
     return res
